@@ -48,8 +48,8 @@ def main(ck):
     jobs_asan.append(dict(family='inject', variant='asan', tier=ck.tier, seed=ck.seed, shard=s, n=n_asan // sh_asan))
   jobs_rel.append(dict(family='unstable', variant='rel', tier=ck.tier, seed=ck.seed, shard=0, n=ck.budget(40, 1500),
                        nsteps=200))
-  jobs_asan.append(dict(family='unstable', variant='asan', tier=ck.tier, seed=ck.seed, shard=0, n=ck.budget(10, 300),
-                        nsteps=60))
+  jobs_asan.append(dict(family='unstable', variant='asan', tier=ck.tier, seed=ck.seed, shard=0, n=ck.budget(6, 300),
+                        nsteps=40))
   jobs_rel.append(dict(family='forward', variant='rel', tier=ck.tier, seed=ck.seed, shard=0, n=ck.budget(150, 6000)))
   for s_ in range(1 if q else 4):
     jobs_asan.append(dict(family='forward', variant='asan', tier=ck.tier, seed=ck.seed, shard=s_, n=ck.budget(60, 4000) // (1 if q else 4)))
@@ -58,49 +58,56 @@ def main(ck):
   from vf import build as vb
   for v in ('rel', 'asan'):
     vb.build(v)
-  out = {}
+  def go(key, jobs, asan, out):
+    out[key] = asanproc.run_jobs('checks.c30_worker', jobs, nproc=(5 if q else 8), asan=asan, tag='C30' + key,
+                                 timeout=(400 if q else 3600))
 
-  def go(key, jobs, asan):
-    out[key] = asanproc.run_jobs('checks.c30_worker', jobs, nproc=(4 if q else 8), asan=asan, tag='C30' + key,
-                                 timeout=(600 if q else 3600))
-  ths = [threading.Thread(target=go, args=('rel', jobs_rel, False)),
-         threading.Thread(target=go, args=('asan', jobs_asan, True))]
-  for t in ths:
-    t.start()
-  for t in ths:
-    t.join()
-  for key, jobs in (('rel', jobs_rel), ('asan', jobs_asan)):
-    for job, res in zip(jobs, out[key]):
-      fp = KNOWN_FD if job['family'] == 'fd' else None
-      if res['ok']:
-        r = res['result']
-        if fp:
-          for v in r['violations']:
-            v['fingerprint'] = fp
-        asanproc.merge(ck, r)
-        for k, v in r.get('extra', {}).items():
-          ck.extra[k] = v
-      elif res.get('harness'):
-        raise RuntimeError('worker setup failed (%s): %s' % (job, res['stderr'][-1500:]))
-      else:
-        if fp and not (res['frame'] and 'engine_derivative_fd' in (res['report'] or '')):
-          fp = None
-        if re.search(r'in mj_transmission ', res['report'] or '') and res['kind'] in ('use-after-poison', 'heap-buffer-overflow'):
-          fp = KNOWN_TRN
-        ck.violation('worker process died (%s, rc=%s) in family %s @ %s\n%s' % (
-            res['kind'], res['rc'], job['family'], res['frame'], (res['report'] or res['stderr'])[:3000]),
-            dict(job=job, journal=res.get('journal'), report=res['report'][:6000]),
-            bucket='%s:%s:%s' % (job['family'], res['kind'], res['frame']), fingerprint=fp)
-        if fp:
-          # known finding: count the journaled case as an executed, non-trivial one
-          j = dict(res.get('journal') or {})
-          j['xml'] = (j.get('xml') or '')[:300]
-          ck.case(nontrivial=True, key=('crash', job['family'], job['variant'], res.get('journal')), sample=j,
-                  labels=[job['family'], job['family'] + ':sanitizer-report'])
-          # the worker died with the rest of its shard: run the remaining budget in a fresh worker
-          if job['family'] != 'fd' and job.get('retries', 0) < 3:
-            retry.append(dict(job, shard=job['shard'] + 100 * (job.get('retries', 0) + 1), retries=job.get('retries', 0) + 1,
-                              n=max(10, job['n'] // 2)))
+  for rnd in range(4):
+    if not jobs_rel and not jobs_asan:
+      break
+    out = {}
+    ths = [threading.Thread(target=go, args=('rel', jobs_rel, False, out)),
+           threading.Thread(target=go, args=('asan', jobs_asan, True, out))]
+    for t in ths:
+      t.start()
+    for t in ths:
+      t.join()
+    retry = []
+    for key, jobs in (('rel', jobs_rel), ('asan', jobs_asan)):
+      for job, res in zip(jobs, out[key]):
+        fp = KNOWN_FD if job['family'] == 'fd' else None
+        if res['ok']:
+          r = res['result']
+          if fp:
+            for v in r['violations']:
+              v['fingerprint'] = fp
+          asanproc.merge(ck, r)
+          for k, v in r.get('extra', {}).items():
+            ck.extra[k] = v
+        elif res.get('harness'):
+          raise RuntimeError('worker setup failed (%s): %s' % (job, res['stderr'][-1500:]))
+        else:
+          if fp and not (res['frame'] and 'engine_derivative_fd' in (res['report'] or '')):
+            fp = None
+          if re.search(r'in mj_transmission ', res['report'] or '') and \
+              res['kind'] in ('use-after-poison', 'heap-buffer-overflow'):
+            fp = KNOWN_TRN
+          ck.violation('worker process died (%s, rc=%s) in family %s @ %s\n%s' % (
+              res['kind'], res['rc'], job['family'], res['frame'], (res['report'] or res['stderr'])[:3000]),
+              dict(job=job, journal=res.get('journal'), report=res['report'][:6000]),
+              bucket='%s:%s:%s' % (job['family'], res['kind'], res['frame']), fingerprint=fp)
+          if fp:
+            # known finding: count the journaled case as an executed, non-trivial one
+            j = dict(res.get('journal') or {})
+            j['xml'] = (j.get('xml') or '')[:300]
+            ck.case(nontrivial=True, key=('crash', job['family'], job['variant'], res.get('journal')), sample=j,
+                    labels=[job['family'], job['family'] + ':sanitizer-report'])
+            # the worker died with the rest of its shard: run part of the remaining budget in a fresh worker
+            if job['family'] != 'fd' and job.get('retries', 0) < 3:
+              retry.append(dict(job, shard=job['shard'] + 100 * (job.get('retries', 0) + 1),
+                                retries=job.get('retries', 0) + 1, n=max(10, job['n'] // 2)))
+    jobs_rel = [j for j in retry if j['variant'] == 'rel']
+    jobs_asan = [j for j in retry if j['variant'] == 'asan']
 
 
 LEVEL = 'exploration'
